@@ -25,6 +25,20 @@ def cells_vs_quadrature(inp):
         cases = [('upper-triangle', 0.1, 0.0, None), ('square', 0.1, 0.3, None), ('rectangle', 0.1, 0.3, 0.55), ('square', 0.2, 0.2, None),
                  # cells off the TEMPO grid that straddle the diagonal (tau = x - y changes sign inside the cell)
                  ('square', 0.1, 0.04, None), ('rectangle', 0.1, 0.02, 0.07), ('rectangle', 0.2, 0.05, 0.3)]
+    # cheap clauses first (a broken correlation function can make the direct quadrature very slow)
+    for c in objs:
+        if abs(c.correlation(-0.4) - np.conj(c.correlation(0.4))) > 1e-8:
+            bad.append({'conj symmetry': 'C(-tau) != conj C(tau)', 'C(-0.4)': str(c.correlation(-0.4)), 'C(0.4)': str(c.correlation(0.4))})
+        n, d = 4, 0.1
+        total = n * c.correlation_2d_integral(d, 0.0, shape='upper-triangle') + sum(
+            (n - k) * c.correlation_2d_integral(d, k * d, shape='square') for k in range(1, n))
+        whole = c.correlation_2d_integral(n * d, 0.0, shape='upper-triangle')
+        if abs(total - whole) > 1e-7:
+            bad.append({'tiling': str(total), 'whole triangle': str(whole)})
+        if c.correlation_2d_integral(d, 0.0, shape='upper-triangle').real <= 0:
+            bad.append({'triangle real part': 'not positive'})
+    if bad:
+        return {'violates': True, 'checked': checked, 'detail': bad[:3]}
     for c in objs:
         for shape, d, t1, t2 in cases:
             kw = {'time_2': t2} if t2 is not None else {}
@@ -34,15 +48,4 @@ def cells_vs_quadrature(inp):
             if abs(got - want) > 1e-6 * max(1.0, abs(want)):
                 bad.append({'shape': shape, 'delta': d, 'time_1': t1, 'time_2': t2, 'temperature': c.temperature,
                             'observed': str(complex(got)), 'required (direct integration of its own C)': str(complex(want))})
-        # symmetry and tiling
-        if abs(c.correlation(-0.4) - np.conj(c.correlation(0.4))) > 1e-8:
-            bad.append({'conj symmetry': 'C(-tau) != conj C(tau)'})
-        n, d = 4, 0.1
-        total = n * c.correlation_2d_integral(d, 0.0, shape='upper-triangle') + sum(
-            (n - k) * c.correlation_2d_integral(d, k * d, shape='square') for k in range(1, n))
-        whole = c.correlation_2d_integral(n * d, 0.0, shape='upper-triangle')
-        if abs(total - whole) > 1e-7:
-            bad.append({'tiling': str(total), 'whole triangle': str(whole)})
-        if c.correlation_2d_integral(d, 0.0, shape='upper-triangle').real <= 0:
-            bad.append({'triangle real part': 'not positive'})
     return {'violates': bool(bad), 'checked': checked, 'detail': bad[:3]}
